@@ -156,6 +156,10 @@ func filterFamily() []world.FilterSpec {
 }
 
 func randFilter(rng *rand.Rand) world.FilterSpec {
+	if GenIdx%11 == 6 {
+		// selectors without requirements, of either meaning
+		return world.FilterSpec{Op: "selcorner", V: pick(rng, "lsel-nil", "nothing", "parsed-empty", "new")}
+	}
 	if GenIdx%7 == 3 {
 		// an application whose filters all come from one small closure factory:
 		// the same function literal, different captured values
@@ -185,6 +189,7 @@ func randFilterTerm(rng *rand.Rand, depth int) world.FilterSpec {
 		{Op: "lsel", K: "app", V: "a"}, {Op: "lsel", K: "app", V: "a|b"}, {Op: "lsel", K: "app", V: "b|a"}, {Op: "lsel", K: "tier", V: "x|y"},
 		{Op: "sel", K: "app", V: "a"}, {Op: "sel", K: "app", V: "ab"},
 		{Op: "rvparity", V: "odd"}, {Op: "rvparity", V: "even"},
+		{Op: "selcorner", V: "lsel-nil"}, {Op: "selcorner", V: "nothing"}, {Op: "selcorner", V: "parsed-empty"}, {Op: "selcorner", V: "new"},
 	}
 	if depth <= 0 || rng.Intn(3) == 0 {
 		return atoms[rng.Intn(len(atoms))]
